@@ -4,7 +4,10 @@
   2. screen        translate/t_inplace.py: in-place statements whose target is not a fresh local are pinned
   3. heap tie      the real kernels run on generated arguments with shared arrays / shared dicts / the
                    same cell twice; argument fingerprints and the id()/shares_memory alias graph of the
-                   result are compared with the model's prediction inside coqc (Model/Heap.v `agrees`)
+                   result are compared with the model's prediction inside coqc (Model/Heap.v `agrees`);
+                   the same for 13 + 5 public entry points modelled as kernel compositions (Model/HeapApi.v
+                   `agrees_api`, Model/HeapApi2.v `agrees_api2`: period_merge, convert_currency,
+                   fill_forward_gaps, backfill, Triangle.derive_metadata)
   4. monitor       harness/monitor.py over every public operation x argument class, and at every
                    position of random operation sequences
 Any argument whose fingerprint changes is a violation with the call as replay."""
@@ -33,7 +36,7 @@ for _k, _v in list(KEYS.items()):
 PS, PE = D(2020, 1, 1), D(2020, 3, 31)
 
 CASE_HEADER = """From Coq Require Import ZArith List Bool.
-From Bermuda Require Import Model.Base Model.Heap Model.HeapApi.
+From Bermuda Require Import Model.Base Model.Heap Model.HeapApi Model.HeapApi2.
 Import ListNotations.
 Open Scope Z_scope.
 (* tag of a cell in the entry-point cases: slice * 10^8 + period * 10^4 + evaluation * 100 + prev code *)
@@ -840,6 +843,193 @@ def b_(x):
     return str(bool(x)).lower()
 
 
+# ------------------------------------------------------------------------------------------ more entry points
+# (Model/HeapApi2.v, Props/C03b.v): period_merge, convert_currency, fill_forward_gaps, backfill, derive_metadata
+ENTRIES2 = ["period_merge", "convert_currency", "fill_forward_gaps", "backfill", "derive_metadata"]
+SHIFT = 5 * 10**8          # a derived / converted metadata gets slice index + 5
+
+
+def fun_of(table, render, default):
+    """Coq function Z -> _ given by a finite table (an oracle on dates / metadata, computed from the ARGUMENTS)."""
+    body = default
+    for k, v in reversed(list(table.items())):
+        body = f"if k =? {z(k)} then {render(v)} else {body}"
+    return f"(fun k => {body})"
+
+
+def tf2_term(cur_dec="(fun _ => CurSame)", cur_fields=()):
+    cur = lst([str(k) for k in cur_fields])
+    return ("(mkTagfns2 (fun t => t / 10000) " + cur_dec + f" (fun t => t + {SHIFT}) (fun k => memk k {cur}) "
+            "(fun t => 3 * ((t / 100) mod 100 - (t / 10000) mod 10000)) "
+            "(fun t => (t / 100000000) * 100 + (t / 100) mod 100))")
+
+
+def build_api2_case(entry, seed):
+    import dataclasses
+
+    from bermuda import Metadata, Triangle
+    import bermuda.utils as U
+
+    C = importlib.import_module("bermuda.utils.currency")
+    r = random.Random(seed)
+    g = KGen(r)
+    if entry == "convert_currency":
+        pool = [Metadata(country="US", currency="USD"), Metadata(country="DE", currency="EUR"),
+                Metadata(country="GB", currency="GBP"), Metadata(country="XX")]
+        ms = r.sample(pool[:3], r.randint(1, 3)) + ([pool[3]] if r.random() < 0.1 else [])
+    else:
+        fd = r.choice([{}, {}, {"note": None}, {"off": False, "memo": None}])
+        pool = [Metadata(country="US", details=dict(fd)), Metadata(country="DE", details=dict(fd)),
+                Metadata(country="US", currency="EUR", details=dict(fd))]
+        ms = r.sample(pool, r.choice([1, 1, 2]))
+    smap = {m: i for i, m in enumerate(sorted(pool))}      # slice index = rank in Metadata order (bf_order)
+    tag = make_tag_api(smap)
+    fields = r.sample(["earned_premium", "paid_loss", "reported_loss", "reported_claims"], r.randint(1, 3))
+    periods = sorted(r.sample(range(0, 6), r.randint(1, 3)))
+    nl = r.randint(1, 3)
+    c = {"exact": True, "tag": tag, "restag": tag, "cfg": "cfg_api", "tf2": tf2_term()}
+
+    def cl(H, tri):
+        return lst([H.val(x) for x in tri.cells])
+
+    if entry == "period_merge":
+        inc = r.random() < 0.25
+        t1 = api_triangle(g, r, ms, periods, nl, inc, fields, p_none=0.05)
+        f2 = r.sample(["earned_premium", "paid_loss", "incurred_loss", "reported_claims"], r.randint(1, 2))
+        x = r.random()
+        if x < 0.15 and len(t1) > 0:
+            firsts = {}
+            for cell in t1.cells:                                       # one of t1's OWN cells per index
+                firsts.setdefault((cell.period, cell.metadata), cell)
+            t2 = Triangle(r.sample(list(firsts.values()), r.randint(1, len(firsts))))
+        elif x < 0.25:
+            t2 = t1                                                      # several cells per index unless 1 lag
+        else:
+            p2 = periods if r.random() < 0.6 else sorted(r.sample(range(0, 6), r.randint(1, 3)))
+            t2 = api_triangle(g, r, ms if r.random() < 0.7 else pool[:1], p2, 1 if r.random() < 0.85 else 2,
+                              inc if r.random() < 0.9 else not inc, f2, p_none=0.05, lag0=r.choice([0, 2]))
+        suffix = r.choice([None, None, "_r", "_r", ""])
+        same = not (min(len(t1), len(t2)) > 0 and type(t1.cells[0]) != type(t2.cells[0]))   # noqa: E721
+        c.update(tris=[t1, t2], thunk=lambda: U.period_merge(t1, t2, suffix=suffix),
+                 coq=lambda H: f"APeriodMerge {b_(same)} {'(Some 100)' if suffix else 'None'} {cl(H, t1)} {cl(H, t2)}")
+    elif entry == "convert_currency":
+        t = api_triangle(g, r, ms, periods, nl, r.random() < 0.25, fields, p_none=0.04)
+        target = r.choice(["USD", "USD", "EUR"])
+        rates = {k: v for k, v in {"USD": 0.5, "EUR": 1.25, "GBP": 1.5}.items() if k != target and r.random() < 0.85}
+        dec = {}
+        for m, i in smap.items():
+            dec[i] = ("CurNone" if m.currency is None else "CurSame" if m.currency == target else
+                      "CurNoRate" if m.currency not in rates else "(CurConvert 2)")
+        smap2 = {dataclasses.replace(m, currency=target): i + 5 for m, i in smap.items()
+                 if m.currency not in (None, target)}
+        tag2 = make_tag_api({**smap2, **smap})
+        cur = [KEYS[k] for k in C.CURRENCY_FIELDS if k in KEYS]
+        c.update(tris=[t], exact=False, restag=tag2, tf2=tf2_term(fun_of(dec, str, "CurNone"), cur),
+                 thunk=lambda: U.convert_currency(t, target, rates), coq=lambda H: f"AConvertCurrency {cl(H, t)}")
+    elif entry == "fill_forward_gaps":
+        full = api_triangle(g, r, ms, periods, r.randint(2, 5), r.random() < 0.3, fields, p_none=0.05,
+                            lag0=r.choice([0, 0, 1]))
+        rows = {}
+        for cell in full.cells:
+            rows.setdefault(tag(cell) // 10000, []).append(cell)
+        keep = []
+        for k_, row in rows.items():                                   # holes after the first cell of a row
+            row = sorted(row, key=lambda x: x.evaluation_date)
+            keep += [row[0]] + [x for x in row[1:] if r.random() < 0.6]
+        r.shuffle(keep)
+        t = Triangle(keep)
+        res = r.choice([3, 3, 3, 6])
+        fill_none = r.random() < 0.4
+        plan = {}
+        for k_ in {tag(x) // 10000 for x in t.cells}:                   # dates only: lag -> prev code of the cell there
+            row = sorted([x for x in t.cells if tag(x) // 10000 == k_], key=lambda x: x.evaluation_date)
+            pc = {int(x.dev_lag()): tag(x) % 100 for x in row}
+            first, last = int(row[0].dev_lag()), int(row[-1].dev_lag())
+            new = sorted(set(range(first, last + res, res)) - set(pc))
+            out = []
+            for lag in new:
+                pc[lag] = pc[lag - res]
+                p_ = k_ % 10000
+                out.append((lag, k_ * 10000 + (p_ + lag // 3) * 100 + pc[lag]))
+            if out:
+                plan[k_] = out
+        render = lambda v: lst([f"({z(a)}, {z(b)})" for a, b in v])     # noqa: E731
+        c.update(tris=[t], thunk=lambda: U.fill_forward_gaps(t, eval_resolution=res, fill_with_none=fill_none),
+                 coq=lambda H: f"AFillForwardGaps {b_(fill_none)} {res} {fun_of(plan, render, '[]')} {cl(H, t)}")
+    elif entry == "backfill":
+        if "earned_premium" not in fields and r.random() < 0.6:
+            fields = fields + ["earned_premium"]
+        t = api_triangle(g, r, ms, periods, nl, False, fields, p_none=0.05, lag0=r.choice([0, 1, 2, 3]))
+        statics = r.choice([None, None, ["paid_loss"], ["earned_premium", "reported_claims"], []])
+        res = r.choice([3, 3, 6])
+        eff = ["earned_premium"] if statics is None else statics
+        plan = {}
+        for p_ in {qidx(x.period_start) for x in t.cells}:
+            row = sorted([x for x in t.cells if qidx(x.period_start) == p_], key=lambda x: (x.metadata, x.evaluation_date))
+            first = row[0]
+            lag, out = int(first.dev_lag()), []
+            while lag - res >= 0:
+                lag -= res
+                out.append(tag(first) // 10000 * 10000 + (p_ + lag // 3) * 100 + tag(first) % 100)
+            plan[tag(first)] = out
+        render = lambda v: lst([z(a) for a in v])                        # noqa: E731
+        kw = {} if statics is None else {"static_fields": statics}
+        c.update(tris=[t], thunk=lambda: U.backfill(t, eval_resolution=res, **kw),
+                 coq=lambda H: f"ABackfill {lst([str(KEYS[k_]) for k_ in eff])} {fun_of(plan, render, '[]')} {cl(H, t)}")
+    elif entry == "derive_metadata":
+        t = api_triangle(g, r, ms, periods, nl, r.random() < 0.3, fields, p_none=0.05)
+        defs = r.choice([{}, {"risk_basis": "Policy"}, {"risk_basis": "Policy", "memo2": 1}, {"memo2": 1},
+                         {"memo2": 1, "memo3": "x", "per_occurrence_limit": 5.0}])
+        smap2 = {}
+        for m, i in smap.items():
+            m2 = m
+            for name, v in defs.items():
+                m2 = (dataclasses.replace(m2, **{name: v}) if name in ("risk_basis", "per_occurrence_limit") else
+                      dataclasses.replace(m2, details={**m2.details, name: v}))
+            if defs:
+                smap2[m2] = i + 5 * len(defs)
+        tag2 = make_tag_api({**smap2, **smap})
+        gs = lst([f"(fun t => t + {SHIFT})"] * len(defs))
+        c.update(tris=[t], restag=tag2, thunk=lambda: t.derive_metadata(**defs),
+                 coq=lambda H: f"ADeriveMetadata {gs} {cl(H, t)}")
+    else:
+        raise KeyError(entry)
+    return c
+
+
+def run_api2_case(entry, seed):
+    import bermuda
+
+    with warnings.catch_warnings():
+        warnings.simplefilter("ignore")
+        try:
+            c = build_api2_case(entry, seed)
+        except Exception as ex:  # noqa: BLE001
+            return {"skipped": f"build:{type(ex).__name__}", "changed": []}
+        H = Heap(c["tag"])
+        try:
+            for t in c["tris"]:
+                for x in t.cells:
+                    H.add(x)
+            heap_term = H.term()
+        except (NotRepresentable, KeyError) as ex:
+            return {"skipped": f"encode:{type(ex).__name__}", "changed": []}
+        res, exc, changes = M.monitored(c["thunk"], (), {}, extra_watch=c["tris"])
+        try:
+            call = c["coq"](H)
+            if exc is not None:
+                obs = f"(ObsRaise {cerr(exc)})"
+            else:
+                cells = res.cells if isinstance(res, bermuda.Triangle) else list(res)
+                obs = f"(ObsRet (GBag {lst([sig(x, H, c['exact'], c['restag']) for x in cells])}))"
+        except (NotRepresentable, KeyError):
+            return {"skipped": "encode-result", "changed": changes}
+    term = f"agrees_api2 tf_api {c['tf2']} {c['cfg']} {b_(c['exact'])}\n  {heap_term}\n  ({call})\n  {obs}"
+    mut = f"mutant_writes2 tf_api {c['tf2']} {c['cfg']}\n  {heap_term}\n  ({call})"
+    return {"skipped": None, "coq": term, "mut": mut, "changed": changes, "shared": True,
+            "outcome": "raised:" + type(exc).__name__ if exc is not None else "returned", "n_objs": len(H.objs)}
+
+
 F21 = {"kind": "defaultdict_values_insert_on_read"}
 
 
@@ -1020,13 +1210,19 @@ def run(ctx):
         "heap tie: for each of 18 kernels, arguments drawn from a pool of 3-4 float arrays (the same array object "
         "reused across values/dicts/cells), dicts shared between cells, the same cell passed twice, None/number/"
         "array/ill-typed entries, broken chains and key mismatches (error branches); result alias graph by id() and "
-        "np.shares_memory. monitor: 135+ public operations x {scalar,array} x {cumulative,incremental} x "
+        "np.shares_memory; 13 + 5 public entry points on 1-3 slice quarterly triangles with shared dicts/arrays/cells "
+        "(period_merge: tri2 with one/several/no cell per index, own cells of tri1, other cell type, suffix None/''/'_r'; "
+        "convert_currency: 1-4 slices in USD/EUR/GBP/None, missing rates, None values; fill_forward_gaps: rows with holes, "
+        "resolution 3/6, fill_with_none; backfill: first lag 0-3, several static_fields incl. missing ones; "
+        "derive_metadata: 0-3 definitions). monitor: 135+ public operations x {scalar,array} x {cumulative,incremental} x "
         "{single,multi slice} triangles from harness/gen.py, plus random operation sequences (length 1-6 quick, "
         "1-12 thorough) where every earlier triangle stays watched. Non-trivial = distinct case with >= 2 heap objects "
         "(kernels) / >= 2 cells (monitor) or an error branch.")
     ctx.assumptions += [
         "PARTIAL: proved = frame property + alias graph of the listed kernels in the heap model (Model/Heap.v)",
-        "NOT proved: that the ~60 public entry points are compositions of these kernels with no other write "
+        "proved in the heap model as kernel compositions: 13 entry points (Props/C03.v) + period_merge, convert_currency, "
+        "fill_forward_gaps, backfill, Triangle.derive_metadata (Props/C03b.v); tied by the heap-level correspondence stream",
+        "NOT proved: that the remaining public entry points are compositions of these kernels with no other write "
         "(monitored by harness/monitor.py and screened by translate/t_inplace.py only)",
         "NumPy view semantics (slices, .T, frombuffer), dtype casting and user callables are not modelled; the "
         "harness detects view aliasing of results with np.shares_memory",
@@ -1038,8 +1234,9 @@ def run(ctx):
     ]
     # 1. proofs
     ctx.audit_tree(["Model/Heap.v", "Model/HeapApi.v", "Proofs/HeapFrame.v", "Proofs/HeapKernels.v", "Proofs/HeapApi.v",
-                    "Props/C03.v"])
+                    "Props/C03.v", "Model/HeapApi2.v", "Proofs/HeapApi2.v", "Props/C03b.v"])
     ctx.prove_static("Props/C03.v", timeout=600)
+    ctx.prove_static("Props/C03b.v", timeout=600)
     if not ctx.quick:
         coqchk(ctx)
     # 2. syntactic screen
@@ -1116,6 +1313,21 @@ def run(ctx):
                 flagged.add("entry:" + entry)
                 ctx.violation("impl-violation", f"entry point {entry} changed an argument: {out['changed'][0][1]}",
                               {"mode": "entry", "entry": entry, "seed": aseed, "change": out["changed"][0][1]},
+                              found_input=True)
+            if out["skipped"]:
+                continue
+            done.append(("entry:" + entry, aseed, out))
+            ctx.nontriv(("entry", entry, aseed))
+    for entry in ENTRIES2:
+        for _ in range(per_api):
+            aseed = rng.randrange(2**31)
+            out = run_api2_case(entry, aseed)
+            ctx.hist(f"entry:{entry}:" + (out["skipped"] and "skipped" or out["outcome"].split(":")[0]))
+            if out["changed"] and ("entry:" + entry) not in flagged:
+                found_input = True
+                flagged.add("entry:" + entry)
+                ctx.violation("impl-violation", f"entry point {entry} changed an argument: {out['changed'][0][1]}",
+                              {"mode": "entry2", "entry": entry, "seed": aseed, "change": out["changed"][0][1]},
                               found_input=True)
             if out["skipped"]:
                 continue
@@ -1245,6 +1457,10 @@ def replay(ctx, data):
         return 1 if out["changed"] else 0
     if mode == "entry":
         out = run_api_case(data["entry"], data["seed"])
+        print(data["entry"], out.get("outcome"), "changed:", out["changed"])
+        return 1 if out["changed"] else 0
+    if mode == "entry2":
+        out = run_api2_case(data["entry"], data["seed"])
         print(data["entry"], out.get("outcome"), "changed:", out["changed"])
         return 1 if out["changed"] else 0
     if mode == "policy_year_cell":
